@@ -112,7 +112,7 @@ var addCmd = &cobra.Command{
 			}
 
 			// directory
-			if f, err := os.Stat(arg); !os.IsNotExist(err) && f.IsDir() {
+			if f, err := os.Stat(arg); err == nil && f.IsDir() {
 				filePaths, err := file.GetFilePathsUnderDirectory(path)
 				if err != nil {
 					return fmt.Errorf("fail to get file path under directory: %w", err)
